@@ -13,9 +13,9 @@ or @fn (inside a function).  Core Lean only.
 namespace ESV.Cache
 
 def modelledShared : List (String × String) := [
-  ("ambient-read|included_usage_map.py|os.path.abspath#1",
+  ("ambient-read|included_usage_map.py|os.path.abspath@fn#1",
     "reads the process's environment (working directory through abspath/realpath of a relative path, …): not modelled; ./check C11 repeats every reference in other working directories and requires identical results"),
-  ("ambient-read|ssb_converting/ssb_compiler.py|os.path.realpath#1",
+  ("ambient-read|ssb_converting/ssb_compiler.py|os.path.realpath@fn#1",
     "reads the process's environment (working directory through abspath/realpath of a relative path, …): not modelled; ./check C11 repeats every reference in other working directories and requires identical results"),
   ("antlr|antlr/ExplorerScriptLexer.py|ExplorerScriptLexer.atn",
     "not modelled: shared prediction caches of the generated parsers, mutated by the antlr4 runtime; history / schedule exploration only (known finding: ParseError message)"),
@@ -37,31 +37,31 @@ def modelledShared : List (String × String) := [
     "not modelled: shared prediction caches of the generated parsers, mutated by the antlr4 runtime; history / schedule exploration only (known finding: ParseError message)"),
   ("antlr|antlr/SsbScriptParser.py|SsbScriptParser.sharedContextCache",
     "not modelled: shared prediction caches of the generated parsers, mutated by the antlr4 runtime; history / schedule exploration only (known finding: ParseError message)"),
-  ("call|ssb_converting/decompiler/graph_building/graph_minimizer.py|sys.setrecursionlimit#1",
+  ("call|ssb_converting/decompiler/graph_building/graph_minimizer.py|sys.setrecursionlimit@def#1",
     "import-time write of a constant (runs once under the import lock, before any compile()/convert() of the process can run the module's code)"),
-  ("identity-key|ssb_converting/compiler/compiler_visitor/statement_visitor.py|id#1",
+  ("identity-key|ssb_converting/compiler/compiler_visitor/statement_visitor.py|id@fn#1",
     "object identity / hash used as a value (logging, __hash__, visited-set of handler objects): not modelled, covered by the multi-hash-seed references and the history exploration"),
-  ("identity-key|ssb_converting/decompiler/graph_building/graph_utils.py|id#2",
+  ("identity-key|ssb_converting/decompiler/graph_building/graph_utils.py|id@fn#2",
     "id(graph) as the key of the memo table: the recyclable `Gid` of ESV/Cache/Model.lean"),
-  ("identity-key|ssb_converting/decompiler/write_handlers/label_jumps/if_start.py|id#2",
+  ("identity-key|ssb_converting/decompiler/write_handlers/label_jumps/if_start.py|id@fn#2",
     "object identity / hash used as a value (logging, __hash__, visited-set of handler objects): not modelled, covered by the multi-hash-seed references and the history exploration"),
-  ("identity-key|ssb_converting/ssb_compiler.py|id#1",
+  ("identity-key|ssb_converting/ssb_compiler.py|id@fn#1",
     "object identity / hash used as a value (logging, __hash__, visited-set of handler objects): not modelled, covered by the multi-hash-seed references and the history exploration"),
-  ("identity-key|ssb_converting/ssb_data_types.py|hash#1",
+  ("identity-key|ssb_converting/ssb_data_types.py|hash@fn#1",
     "object identity / hash used as a value (logging, __hash__, visited-set of handler objects): not modelled, covered by the multi-hash-seed references and the history exploration"),
   ("module-object|ssb_converting/decompiler/graph_building/graph_utils.py|cache_lock:instance:Lock|with@fn",
     "the lock: its `with` blocks are the atomic sections of ESV/Cache/Threads.lean"),
   ("module-object|ssb_converting/decompiler/graph_building/graph_utils.py|find_first_common_next_vertex_in_edges_cache:dict|subscript@fn",
     "the memo table: `Memo` of ESV/Cache/Model.lean; written only by subscript assignment inside the locked sections (lookup, store, clear)"),
-  ("set-iteration|ssb_converting/decompiler/graph_building/graph_minimizer.py|comprehension:name:breaks_set#1",
+  ("set-iteration|ssb_converting/decompiler/graph_building/graph_minimizer.py|comprehension:name:breaks_set@fn#1",
     "iteration order may depend on element hashes (ints: deterministic; strings: PYTHONHASHSEED; objects: addresses): not modelled, covered by the multi-hash-seed references of ./check C11"),
-  ("set-iteration|ssb_converting/decompiler/graph_building/graph_utils.py|comprehension:name:vs#1",
+  ("set-iteration|ssb_converting/decompiler/graph_building/graph_utils.py|comprehension:name:vs@fn#1",
     "iteration order may depend on element hashes (ints: deterministic; strings: PYTHONHASHSEED; objects: addresses): not modelled, covered by the multi-hash-seed references of ./check C11"),
-  ("set-iteration|ssb_converting/decompiler/graph_building/graph_utils.py|for:name:should_remove#1",
+  ("set-iteration|ssb_converting/decompiler/graph_building/graph_utils.py|for:name:should_remove@fn#1",
     "iteration order may depend on element hashes (ints: deterministic; strings: PYTHONHASHSEED; objects: addresses): not modelled, covered by the multi-hash-seed references of ./check C11"),
-  ("set-iteration|ssb_converting/decompiler/graph_building/graph_utils.py|for:set-op#1",
+  ("set-iteration|ssb_converting/decompiler/graph_building/graph_utils.py|for:set-op@fn#1",
     "iteration order may depend on element hashes (ints: deterministic; strings: PYTHONHASHSEED; objects: addresses): not modelled, covered by the multi-hash-seed references of ./check C11"),
-  ("set-iteration|ssb_converting/decompiler/graph_building/graph_utils.py|pop:name:intersection_result#1",
+  ("set-iteration|ssb_converting/decompiler/graph_building/graph_utils.py|pop:name:intersection_result@fn#1",
     "iteration order may depend on element hashes (ints: deterministic; strings: PYTHONHASHSEED; objects: addresses): not modelled, covered by the multi-hash-seed references of ./check C11")]
 
 def modelledSharedKeys : List String := modelledShared.map (·.1)
